@@ -3,7 +3,8 @@ from ..core import digest_of, san
 from ..net import NetWorld
 from ..tcp import FaultLink, make_sender, MSS
 from onl.netdev import Port, Wire
-from onl.packet import Packet, TCPSink
+from onl.packet import Packet, TCPSink, TCPPacketGenerator, TCPReno, TCPCubic
+from onl.packet.tcp_generator import Flow
 
 ID = 'C16'
 SHRINK_KEEP = ('d_data', 'd_ack', 'rtt_est', 'cwnd', 'ssthresh', 'chunk')
@@ -20,7 +21,7 @@ ASSUMPTIONS = ['flow sizes are multiples of the MSS (512)', 'completion is deman
                'simulated-time bound; runs that hit the step cap before that bound are inconclusive, not violations',
                'the no-duplicate clause applies only to fault-free runs in which the path RTT was below the sender\'s RTO at '
                'every transmission']
-PROBES = ['sub_blackhole', 'second_connection', 'deadline_after_last_segment', 'synchronous_path', 'real_path', 'tail_drop_on_path', 'sub_sink', 'sub_e2e', 'sub_clean', 'rto_fired', 'fast_retransmit', 'ack_lost', 'data_lost', 'duplicate_delivered',
+PROBES = ['sub_barepath', 'sub_blackhole', 'second_connection', 'deadline_after_last_segment', 'synchronous_path', 'real_path', 'tail_drop_on_path', 'sub_sink', 'sub_e2e', 'sub_clean', 'rto_fired', 'fast_retransmit', 'ack_lost', 'data_lost', 'duplicate_delivered',
           'overtaken', 'cc_cubic', 'completed', 'inconclusive', 'first_segment_missing', 'sink_duplicate', 'sink_gap',
           'clean_precondition_held', 'flow_without_a_full_segment', 'flow_without_finish_time', 'sink_recording_options', 'application_chunks_not_in_mss_units', 'flow_object_used_by_an_earlier_run']
 
@@ -48,6 +49,13 @@ def gen(rng, tier):
         else:
             arr = [rng.randrange(n) for _ in range(rng.randint(1, 3 * n))]
         return {'sub': 'sink', 'arrivals': arr}
+    if rng.random() < 0.08:
+        return {'sub': 'barepath', 'cc': rng.choice(['reno', 'cubic']), 'segments': rng.randint(1, 24),
+                'rtt_est': rng.choice([0.05, 0.05, 0.2, 1.0]), 'cwnd': rng.choice([MSS, 4 * MSS, 20 * MSS]),
+                'ssthresh': rng.choice([65535, 2048]), 'port_rate': rng.choice([81920, 81920, 409600, 1 << 22]),
+                'd_data': rng.choice([0.01, 0.05, 0.25]), 'd_ack': rng.choice([0.01, 0.05, 0.25]),
+                'loss': rng.choice([0.1, 0.3, 0.5]), 'draws': [rng.random() for _ in range(rng.randint(3, 17))],
+                'lossy_until': rng.choice([5, 20, 60])}
     n = rng.randint(1, 40 if tier == 'thorough' else 24)
     d1 = rng.choice([0.01, 0.05, 0.1, 0.25])
     d2 = rng.choice([0.01, 0.05, 0.1, 0.25])
@@ -229,6 +237,65 @@ def run_blackhole(w, case):
     return viol, stats, True
 
 
+def run_barepath(w, case):
+    """Sender, sink and path built from library elements only: the sender's next hop is a real Port, then a Wire that loses
+    finitely many packets (scripted draws, loss switched off after `lossy_until`), the TCPSink, a Wire back. Nothing is
+    tapped; what counts is the end: everything delivered and acknowledged, nothing raised."""
+    import onl.netdev.wire as wire_mod
+    viol, stats = [], {'sub_barepath': 1}
+    env = w.env
+    n = case.get('segments', 1)
+    size = n * MSS
+    flow = Flow(flow_id=1, src='h0', dst='h1', finish_time=None, size=size)
+    cc = TCPCubic() if case.get('cc') == 'cubic' else TCPReno(mss=MSS, cwnd=case.get('cwnd', MSS), ssthresh=case.get('ssthresh', 65535))
+    sender = TCPPacketGenerator(env, flow, cc, element_id='h0', rtt_estimate=case.get('rtt_est', 1.0))
+    sink = TCPSink(env)
+    port = Port(env, case.get('port_rate', 100000), None, False, 'p0')
+    draws = list(case.get('draws') or [0.9])
+    state = {'i': 0}
+
+    class Rnd:
+        def uniform(self, a, b):
+            v = draws[state['i'] % len(draws)]
+            state['i'] += 1
+            return a + (b - a) * v
+
+        def __getattr__(self, name):
+            import random as _r
+            return getattr(_r, name)
+    saved = wire_mod.random
+    wire_mod.random = Rnd()
+    try:
+        wd = Wire(env, lambda: case.get('d_data', 0.05), case.get('loss', 0.3))
+        wa = Wire(env, lambda: case.get('d_ack', 0.05))
+        sender.out = port
+        port.out = wd
+        wd.out = sink
+        sink.out = wa
+        wa.out = sender
+
+        def heal():
+            yield env.timeout(case.get('lossy_until', 20))
+            wd.loss_rate = None
+        env.process(heal())
+        w.run(max_steps=120000)
+    finally:
+        wire_mod.random = saved
+    for r in w.log:
+        if r[0] == 'ERR':
+            viol.append(('C16.2/%s' % (r[4][1] if isinstance(r[4], tuple) and len(r[4]) > 1 else 'exc'),
+                         'the TCP run (library elements only) raised %r' % (r[4],)))
+            return viol, stats, True
+    done = sink.recv_buffer == [[0, size]] and sender.last_ack == size
+    if done:
+        stats['completed'] = 1
+    elif w.quiescent:
+        viol.append(('C16.2', 'library elements only (sender -> Port -> lossy Wire -> sink -> Wire -> sender): the simulation ran '
+                     'out of events with the transfer incomplete: sink holds %r, acknowledged mark %r, flow size %r' %
+                     (sink.recv_buffer, sender.last_ack, size)))
+    return viol, stats, True
+
+
 def run_e2e(w, case):
     viol, stats = [], {'sub_' + case['sub']: 1}
     env = w.env
@@ -375,6 +442,8 @@ def run(case):
         viol, stats, nt = run_sink(w, case)
     elif case.get('sub') == 'blackhole':
         viol, stats, nt = run_blackhole(w, case)
+    elif case.get('sub') == 'barepath':
+        viol, stats, nt = run_barepath(w, case)
     else:
         if case.get('deadline') and case.get('sub') != 'clean' and 'finish' not in case:
             # dry run: when did the last new segment go out for the first time?
